@@ -78,6 +78,36 @@ impl Type {
         matches!(self, Type::Error { .. })
     }
 
+    /// Can this type be written as a type hint in source code?
+    ///
+    /// `Any`, `NoValue` and type checker errors are not types that
+    /// users can write, and a type parameter can only be written
+    /// where it is in scope. IDE features that insert type hints
+    /// use this to avoid generating code that doesn't run.
+    pub(crate) fn is_writable_hint(&self, type_params_in_scope: &[TypeName]) -> bool {
+        match self {
+            Type::Any | Type::Error { .. } => false,
+            Type::TypeParameter(name) => type_params_in_scope.contains(name),
+            Type::Tuple(elem_tys) => elem_tys
+                .iter()
+                .all(|ty| ty.is_writable_hint(type_params_in_scope)),
+            Type::Fun {
+                params, return_, ..
+            } => {
+                params
+                    .iter()
+                    .all(|ty| ty.is_writable_hint(type_params_in_scope))
+                    && return_.is_writable_hint(type_params_in_scope)
+            }
+            Type::UserDefined { args, .. } => {
+                !self.is_no_value()
+                    && args
+                        .iter()
+                        .all(|ty| ty.is_writable_hint(type_params_in_scope))
+            }
+        }
+    }
+
     pub(crate) fn is_unit(&self) -> bool {
         let Type::UserDefined { name, .. } = self else {
             return false;
